@@ -51,9 +51,14 @@ def run(ctx):
         if k < 0.3:
             return ("slice", r.choice([None, r.randint(-n - 1, n + 1)]), r.choice([None, r.randint(-n - 1, n + 1)]), r.choice([None, 1, 2, -1, 3]))
         if k < 0.55:
-            return ("mask", [r.random() < 0.6 for _ in range(n)])
-        if k < 0.9:
-            return ("fancy", [r.randint(-n, n - 1) for _ in range(r.randint(1, 5))] if n else [])
+            return ("mask", [r.random() < 0.6 for _ in range(n)], r.random() < 0.3)
+        if k < 0.8:
+            return ("fancy", [r.randint(-n, n - 1) for _ in range(r.randint(1, 5))] if n else [], r.random() < 0.3)
+        if k < 0.9 and n >= 2:
+            # as many row numbers as the table has rows: a resampling that misses row 0, a reversal written with negative numbers, a permutation
+            kind = r.random()
+            idx = [r.randint(1, n - 1) for _ in range(n)] if kind < 0.4 else (list(range(-1, -n - 1, -1)) if kind < 0.7 else r.sample(range(n), n))
+            return ("fancy", idx, r.random() < 0.3)
         return ("empty",)
 
     def apply_sel_model(state, sel):
@@ -68,10 +73,11 @@ def run(ctx):
     def apply_sel_real(t, sel):
         if sel[0] == "slice":
             return t[slice(sel[1], sel[2], sel[3])]
+        as_list = len(sel) > 2 and sel[2] and len(sel[1]) > 0       # the index given as a plain Python list instead of a NumPy array
         if sel[0] == "mask":
-            return t[np.array(sel[1], dtype=bool)]
+            return t[list(sel[1]) if as_list else np.array(sel[1], dtype=bool)]
         if sel[0] == "fancy":
-            return t[np.array(sel[1], dtype=int)]
+            return t[list(sel[1]) if as_list else np.array(sel[1], dtype=int)]
         return t[:0]
 
     def one(case):
